@@ -3,6 +3,8 @@
 #include "common.h"
 #include "gf.h"
 #include "rs28_tu.h"
+#include "rsref.h"
+#include "of_openfec_api.h"
 #include "lib_stable/reed-solomon_gf_2_m/galois_field_codes_utils/algebra_2_4.h"
 #include "lib_stable/reed-solomon_gf_2_m/galois_field_codes_utils/algebra_2_8.h"
 
@@ -62,6 +64,44 @@ static void check_set(int m, const char *pfx,
 			entry(name, a * mcols + b, mul[a * mcols + b], gfo_mul(m, a, b), 1);
 }
 
+/* The tables as a session uses them: which field an RS GF(2^m) instance computes in can be chosen through the parameters, through
+ * OF_RS_CTRL_SET_FIELD_SIZE, or both in either order. Whatever the order, the instance advertises one field (MAX_N = 2^m - 1) and
+ * every repair symbol must be the product by the reference generator of THAT field (exp, mul and inverse tables all of one field). */
+static void tables_in_use(int order, int mf, unsigned k, rng_t *r)
+{
+	if (!rep_case("tables-in-use field=%d selection-order=%d k=%u n=15", mf, order, k)) return;
+	unsigned n = 15, L = 7; int other = mf == 4 ? 8 : 4; char key[96];
+	of_session_t *s = NULL; UINT16 fs; of_status_t st = OF_STATUS_OK;
+	of_rs_2_m_parameters_t prm; memset(&prm, 0, sizeof prm);
+	prm.nb_source_symbols = k; prm.nb_repair_symbols = n - k; prm.encoding_symbol_length = L;
+	if (of_create_codec_instance(&s, OF_CODEC_REED_SOLOMON_GF_2_M_STABLE, OF_ENCODER, 0) != OF_STATUS_OK || !s) rep_fatal("C14: cannot create an RS GF(2^m) instance");
+	if (order == 1) { fs = (UINT16)mf; st = of_set_control_parameter(s, OF_RS_CTRL_SET_FIELD_SIZE, &fs, sizeof fs); }
+	if (order == 2) { fs = (UINT16)other; st = of_set_control_parameter(s, OF_RS_CTRL_SET_FIELD_SIZE, &fs, sizeof fs); }
+	prm.m = (UINT16)(order == 3 ? other : mf);
+	if (st == OF_STATUS_OK) st = of_set_fec_parameters(s, (of_parameters_t *)&prm);
+	if (st == OF_STATUS_OK && order == 3) { fs = (UINT16)mf; st = of_set_control_parameter(s, OF_RS_CTRL_SET_FIELD_SIZE, &fs, sizeof fs); }
+	if (st != OF_STATUS_OK) { rep_count("field_selection_orders_refused", 1); of_release_codec_instance(s); rep_case_done(1, 0, 1); return; }
+	UINT32 maxn = 0;
+	if (of_get_control_parameter(s, OF_CTRL_GET_MAX_N, &maxn, sizeof maxn) != OF_STATUS_OK) maxn = 0;
+	int field = maxn == 15 ? 4 : maxn == 255 ? 8 : 0;
+	if (!field) { snprintf(key, sizeof key, "tables-in-use:advertised-field:order=%d", order); rep_viol(key, "MAX_N=%u after selecting field 2^%d", maxn, mf); }
+	else {
+		uint8_t *sym[16], *exp = malloc(L + 1); void *tab[16]; uint8_t *G = malloc((size_t)n * k + 1);
+		for (unsigned i = 0; i < n; i++) { sym[i] = calloc(1, L + 1); tab[i] = sym[i]; if (i < k) for (unsigned b = 0; b < L; b++) sym[i][b] = (uint8_t)rng_u64(r); }
+		if (rsref_generator(field, k, n, G)) rep_fatal("rsref: singular");
+		for (unsigned e = k; e < n; e++) {
+			if (of_build_repair_symbol(s, tab, e) != OF_STATUS_OK) { snprintf(key, sizeof key, "tables-in-use:encode-failed:order=%d", order); rep_viol(key, "field 2^%d k=%u esi=%u", field, k, e); break; }
+			rsref_encode_row(field, G + (size_t)e * k, k, sym, L, exp);
+			if (memcmp(exp, sym[e], L)) { snprintf(key, sizeof key, "tables-in-use:gf2_%d:order=%d", field, order); rep_viol(key, "repair esi=%u of a k=%u n=15 code is not the product by the GF(2^%d) reference generator (the instance advertises MAX_N=%u)", e, k, field, maxn); break; }
+			rep_count("repair_symbols_checked_against_the_advertised_field", 1);
+		}
+		for (unsigned i = 0; i < n; i++) free(sym[i]);
+		free(exp); free(G);
+	}
+	of_release_codec_instance(s);
+	rep_case_done(1, 0, 1);
+}
+
 int p_c14(void)
 {
 	long unit = 0;
@@ -107,5 +147,11 @@ int p_c14(void)
 		}
 		unit++;
 	}
+	rep_unit(unit);
+	if (rep_unit_mine(unit)) {
+		rng_t r = rng_make(g_run.seed, 1400, 0);
+		for (int mf = 4; mf <= 8; mf += 4) for (int order = 0; order < 4; order++) for (unsigned k = 2; k <= 13; k += (k < 5 ? 1 : 4)) tables_in_use(order, mf, k, &r);
+	}
+	unit++;
 	return 0;
 }
